@@ -195,6 +195,18 @@ theorem prune_never_matching_identity (p : Profile) : pruneWith p (fun _ => fals
   unfold lineMatches
   split <;> simp
 
+/-- The same for prune_from, UNCONDITIONAL (also inside the known-finding family
+`inlined-location-above-lowest-match`): location lists and line lists only lose leaf-side elements. -/
+theorem pruneFrom_removes_only_leaf_side (p : Profile) (q : Str → Bool) :
+    (∀ s, (pruneFromSample p q s).locationIDs <:+ s.locationIDs) ∧
+    (∀ l, (pruneFromLoc p q l).1.lines <:+ l.lines ∧ (pruneFromLoc p q l).1.id = l.id) :=
+  ⟨pruneFromSample_suffix p q, fun l => ⟨pruneFromLoc_suffix p q l, pruneFromLoc_id p q l⟩⟩
+
+/-- prune_from with an expression that names no line of any location is the identity. -/
+theorem pruneFrom_no_match_identity (p : Profile) (q : Str → Bool)
+    (h : ∀ l ∈ p.locations, ∀ ln ∈ l.lines, lineMatches p q ln = false) : pruneFromWith p q = p :=
+  pruneFromWith_no_match p q h
+
 -- non-vacuity: the hypotheses are satisfiable by non-trivial values (a sample whose first user
 -- location is clean, with a match further towards the leaf)
 example : PruneH witnessA (fun n => n == [108, 102]) ⟨[1, 2], [7], [], [], []⟩ := by decide
